@@ -533,4 +533,210 @@ Proof.
   - apply inv_init.
 Qed.
 
+(** ** The result of a run, path by path *)
+
+(** what both trees hold at [x] after the run: the loser if [x] is a conflict name
+    generated by this run, else the per-path result *)
+Definition expected (s : state) (x : K) : option content :=
+  match conflict_name_dec s x with
+  | inleft pl => Some (proj1_sig pl).2
+  | inright _ => fin s x
+  end.
+
+Lemma expected_name s p x l : Fresh s -> conflict s p = Some (x, l) -> expected s x = Some l.
+Proof.
+  intros F E. unfold expected. destruct (conflict_name_dec s x) as [[[p' l'] E']|N]; cbn in *.
+  - assert (p' = p) as -> by (eapply (proj2 F); eauto). congruence.
+  - exfalso. exact (N _ _ E).
+Qed.
+
+Lemma expected_other s x : (forall p l, conflict s p <> Some (x, l)) -> expected s x = fin s x.
+Proof.
+  intros N. unfold expected. destruct (conflict_name_dec s x) as [[[p' l'] E']|_]; [|reflexivity].
+  exfalso. exact (N _ _ E').
+Qed.
+
+Lemma conflict_key s p q l : conflict s p = Some (q, l) -> p ∈ keys s.
+Proof. intros E. apply conflict_spec in E as (x & _ & Ea & _). apply elem_of_keys. left. eauto. Qed.
+
+Lemma fin_out s x : x ∉ keys s -> fin s x = None.
+Proof. intros [Ha Hb]%not_elem_of_keys. unfold fin. rewrite Ha, Hb. reflexivity. Qed.
+
+Lemma run_lookup s : HashOk s -> Fresh s -> forall x,
+  wA (wfinal s) !! x = expected s x /\ wB (wfinal s) !! x = expected s x /\
+  wC (wfinal s) !! x = Hh <$> expected s x.
+Proof.
+  intros Hok F x. destruct (final_inv s Hok F) as [_ _ In Id _ Io].
+  destruct (conflict_name_dec s x) as [[[p l] E]|N].
+  - cbn in E. rewrite (expected_name _ _ _ _ F E). apply (In p); [|exact E]. eapply conflict_key, E.
+  - rewrite expected_other by exact N. destruct (decide (x ∈ keys s)) as [Hx|Hx].
+    + apply Id, Hx.
+    + rewrite (fin_out _ _ Hx). apply Io; [exact Hx|]. intros p l _. apply N.
+Qed.
+
+Lemma run_result s : HashOk s -> Fresh s ->
+  bisync_run s = ({| tA := wA (wfinal s); tB := wB (wfinal s); arch := Some (wC (wfinal s)) |},
+                  (if decide (wConf (wfinal s) = 0) then ExitOk else ExitConflicts),
+                  plan (scan (tA s)) (scan (tB s)) (arch s)).
+Proof. intros Hok F. rewrite run_unfold. rewrite (inv_err _ _ _ (final_inv s Hok F)). reflexivity. Qed.
+
+(** Under [Fresh] a run never ends in an I/O error (every copy finds its source) *)
+Lemma run_no_io_error s s' e pl :
+  HashOk s -> Fresh s -> bisync_run s = (s', e, pl) -> e <> ExitIoError.
+Proof.
+  intros Hok F R. rewrite (run_result s Hok F) in R. injection R as _ <- _.
+  destruct (decide (wConf (wfinal s) = 0)); discriminate.
+Qed.
+
+(** The central lemma *)
+Lemma run_per_path s s' e pl :
+  HashOk s -> Fresh s -> bisync_run s = (s', e, pl) ->
+  is_Some (arch s') /\
+  forall x,
+    (forall p l, conflict s p = Some (x, l) ->
+       tA s' !! x = Some l /\ tB s' !! x = Some l /\ base_at (arch s') x = Some (Hh l)) /\
+    ((forall p l, conflict s p <> Some (x, l)) ->
+       (tA s' !! x, tB s' !! x, base_at (arch s') x)
+       = per_path_result (tA s !! x) (tB s !! x) (base_at (arch s) x)).
+Proof.
+  intros Hok F R. rewrite (run_result s Hok F) in R. injection R as <- _ _. cbn.
+  split; [eauto|]. intros x. destruct (run_lookup s Hok F x) as (-> & -> & ->). split.
+  - intros p l E. rewrite (expected_name _ _ _ _ F E). auto.
+  - intros N. rewrite (expected_other _ _ N). reflexivity.
+Qed.
+
+(** ** C06 corollaries *)
+
+Lemma run_converges s s' e pl :
+  HashOk s -> Fresh s -> bisync_run s = (s', e, pl) -> tA s' = tB s'.
+Proof.
+  intros Hok F R. rewrite (run_result s Hok F) in R. injection R as <- _ _. cbn.
+  apply map_eq. intros x. destruct (run_lookup s Hok F x) as (-> & -> & _). reflexivity.
+Qed.
+
+Lemma run_records_tree s s' e pl :
+  HashOk s -> Fresh s -> bisync_run s = (s', e, pl) -> arch s' = Some (Hh <$> tA s').
+Proof.
+  intros Hok F R. rewrite (run_result s Hok F) in R. injection R as <- _ _. cbn. f_equal.
+  apply map_eq. intros x. rewrite lookup_fmap. destruct (run_lookup s Hok F x) as (-> & _ & ->). reflexivity.
+Qed.
+
+Lemma omap_all_None {A B} (f : A -> option B) (l : list A) : (forall x, f x = None) -> omap f l = [].
+Proof. intros Hf. induction l as [|x l IH]; [reflexivity|]. cbn. rewrite Hf. exact IH. Qed.
+
+Lemma rpath_synced (v : option D) : rpath v v v = None.
+Proof. destruct v as [d|]; [|reflexivity]. cbn. rewrite !decide_True by reflexivity. reflexivity. Qed.
+
+(** a run from a converged, exactly recorded state plans nothing and changes nothing *)
+Lemma synced_run_noop (s : state) :
+  tA s = tB s -> arch s = Some (Hh <$> tA s) ->
+  plan (scan (tA s)) (scan (tB s)) (arch s) = [] /\ bisync_run s = (s, ExitOk, []).
+Proof.
+  intros Eab Ez.
+  assert (P : plan (scan (tA s)) (scan (tB s)) (arch s) = []).
+  { unfold Bisync.plan. apply omap_all_None. intros p. rewrite <- Eab, Ez. cbn. unfold Bisync.scan.
+    rewrite rpath_synced. reflexivity. }
+  split; [exact P|]. unfold Bisync.bisync_run. cbv zeta. rewrite P. cbn.
+  destruct s as [A B z]. cbn in *. subst B z. do 4 f_equal. unfold prune.
+  apply map_filter_id. intros i x Hi. cbn. left. unfold Bisync.scan. eauto.
+Qed.
+
+Lemma run_idempotent s s' e pl :
+  HashOk s -> Fresh s -> bisync_run s = (s', e, pl) ->
+  plan (scan (tA s')) (scan (tB s')) (arch s') = [] /\ bisync_run s' = (s', ExitOk, []).
+Proof.
+  intros Hok F R. apply synced_run_noop.
+  - eapply run_converges; eauto.
+  - eapply run_records_tree; eauto.
+Qed.
+
+Lemma conflict_in_plan s p :
+  (p, ConfBoth) ∈ plan (scan (tA s)) (scan (tB s)) (arch s) <-> conflict s p <> None.
+Proof.
+  rewrite elem_of_plan_state, <- conflict_iff_act. split.
+  - intros [x E]. congruence.
+  - destruct (conflict s p); [eauto|congruence].
+Qed.
+
+Lemma exit_status_spec s s' e pl :
+  HashOk s -> Fresh s -> bisync_run s = (s', e, pl) ->
+  (e = ExitConflicts <-> exists p, (p, ConfBoth) ∈ pl) /\
+  (e = ExitOk <-> forall p, (p, ConfBoth) ∉ pl).
+Proof.
+  intros Hok F R. rewrite (run_result s Hok F) in R. injection R as _ <- <-.
+  pose proof (inv_conf _ _ _ (final_inv s Hok F)) as Ic.
+  assert (X : wConf (wfinal s) <> 0 <-> exists p, (p, ConfBoth) ∈ plan (scan (tA s)) (scan (tB s)) (arch s)).
+  { rewrite Ic. split.
+    - intros (p & _ & Hp). exists p. apply conflict_in_plan, Hp.
+    - intros (p & Hp). exists p. apply conflict_in_plan in Hp. split; [|exact Hp].
+      destruct (conflict s p) as [[q l]|] eqn:E; [eapply conflict_key, E|congruence]. }
+  destruct (decide (wConf (wfinal s) = 0)) as [Z|NZ].
+  - split; split; try discriminate.
+    + intros Y. apply X in Y. contradiction.
+    + intros _ p Hp. apply (proj2 X); eauto.
+    + reflexivity.
+  - split; split; try discriminate.
+    + intros _. apply X, NZ.
+    + reflexivity.
+    + intros Y. exfalso. apply X in NZ as (p & Hp). exact (Y p Hp).
+Qed.
+
+(** the both-changed decision, spelled out *)
+Lemma rpath_both_changed (dx dy : D) (z : option D) :
+  rpath (Some dx) (Some dy) z = Some ConfBoth <-> dx <> dy /\ z <> Some dx /\ z <> Some dy.
+Proof.
+  cbn. destruct (decide (dx = dy)) as [E|N].
+  - destruct (decide (z = Some dx)); split; try discriminate; intros (? & _); contradiction.
+  - destruct (decide (z = Some dx)) as [Ex|Nx], (decide (z = Some dy)) as [Ey|Ny].
+    + congruence.
+    + rewrite (bool_decide_eq_false_2 (z <> Some dx)) by tauto.
+      rewrite (bool_decide_eq_true_2 (z <> Some dy)) by tauto. split; [discriminate|tauto].
+    + rewrite (bool_decide_eq_true_2 (z <> Some dx)) by tauto.
+      rewrite (bool_decide_eq_false_2 (z <> Some dy)) by tauto. split; [discriminate|tauto].
+    + rewrite (bool_decide_eq_true_2 (z <> Some dx)) by tauto.
+      rewrite (bool_decide_eq_true_2 (z <> Some dy)) by tauto. tauto.
+Qed.
+
+Lemma conflict_changed s p q l :
+  conflict s p = Some (q, l) <->
+  exists x y, tA s !! p = Some x /\ tB s !! p = Some y /\
+    Hh x <> Hh y /\ base_at (arch s) p <> Some (Hh x) /\ base_at (arch s) p <> Some (Hh y) /\
+    l = loser x y /\ q = cname p (Hh l).
+Proof.
+  rewrite conflict_spec. split.
+  - intros (x & y & Ea & Eb & R & El & Eq). exists x, y. unfold act_at in R. rewrite Ea, Eb in R.
+    apply rpath_both_changed in R. tauto.
+  - intros (x & y & Ea & Eb & N1 & N2 & N3 & El & Eq). exists x, y. unfold act_at. rewrite Ea, Eb.
+    rewrite (proj2 (rpath_both_changed (Hh x) (Hh y) _)); tauto.
+Qed.
+
+Lemma fin_both_changed s p x y :
+  tA s !! p = Some x -> tB s !! p = Some y ->
+  Hh x <> Hh y -> base_at (arch s) p <> Some (Hh x) -> base_at (arch s) p <> Some (Hh y) ->
+  fin s p = Some (winner x y).
+Proof.
+  intros Ea Eb N1 N2 N3. unfold fin, final_content. rewrite Ea, Eb. rewrite !decide_False by assumption. reflexivity.
+Qed.
+
+Lemma conflict_resolution s s' e pl p :
+  HashOk s -> Fresh s -> bisync_run s = (s', e, pl) -> (p, ConfBoth) ∈ pl ->
+  exists x y, tA s !! p = Some x /\ tB s !! p = Some y /\ Hh x <> Hh y /\
+    let w := if dge (Hh x) (Hh y) then x else y in
+    let l := if dge (Hh x) (Hh y) then y else x in
+    tA s' !! p = Some w /\ tB s' !! p = Some w /\
+    tA s' !! cname p (Hh l) = Some l /\ tB s' !! cname p (Hh l) = Some l.
+Proof.
+  intros Hok F R Hp. pose proof (run_per_path s s' e pl Hok F R) as [_ PP].
+  rewrite (run_result s Hok F) in R. injection R as _ _ <-.
+  apply conflict_in_plan in Hp. destruct (conflict s p) as [[q l]|] eqn:E; [clear Hp|congruence].
+  pose proof E as E'. apply conflict_changed in E' as (x & y & Ea & Eb & N1 & N2 & N3 & -> & ->).
+  exists x, y. split; [exact Ea|]. split; [exact Eb|]. split; [exact N1|]. cbv zeta.
+  fold (winner x y) (loser x y).
+  destruct (proj1 (PP _) _ _ E) as (Q1 & Q2 & _).
+  assert (Np : forall p' l', conflict s p' <> Some (p, l')).
+  { intros p' l' E'. rewrite (fresh_name_not_conflict _ _ _ _ F E') in E. discriminate. }
+  pose proof (proj2 (PP p) Np) as Q. unfold per_path_result in Q.
+  fold (fin s p) in Q. rewrite (fin_both_changed s p x y Ea Eb N1 N2 N3) in Q. injection Q as -> -> _. auto.
+Qed.
+
 End BisyncProofs.
